@@ -161,6 +161,9 @@ func runC02(r *Run) {
 				if x != k.max {
 					ys = append(ys, x+1)
 				}
+				if k.max <= math.MaxInt32 && x >= k.min && x <= k.max { // another number with the same low bits: different, not equal after narrowing
+					ys = append(ys, x+2*(k.max+1), x-2*(k.max+1), x+4*(k.max+1))
+				}
 				if k.max == math.MaxInt64 && (x > 1<<52 || x < -(1<<52)) {
 					ys = append(ys, x^1) // differs only in the last bit: equal as float64
 				}
@@ -204,6 +207,9 @@ func runC02(r *Run) {
 					ys = append(ys, x+1)
 				} else {
 					ys = append(ys, x-1)
+				}
+				if k.max <= math.MaxUint32 {
+					ys = append(ys, x+k.max+1, x+2*(k.max+1))
 				}
 				for _, y := range ys {
 					for _, sp := range uintSpellings(y) {
@@ -336,6 +342,7 @@ func runC02(r *Run) {
 			check("non-scalar:"+fmt.Sprintf("%T", v), "direct", map[string]interface{}{"v": v}, "v", "1", "non-scalar", "E")
 		}
 	}
+	sameNameTypes(r, nil)
 	// L0: the strconv models against strconv
 	l0 := []string{"0", "1", "-1", "+1", "0x10", "0X1f", "0o17", "0b101", "017", "08", "1_000", "0x_1", "0_1", "_1", "1_", "1__0", "9223372036854775807", "9223372036854775808", "-9223372036854775808", "-9223372036854775809",
 		"18446744073709551615", "18446744073709551616", "", " 1", "1 ", "abc", "0x", "1e3", "1.5", "99999999999999999999999", "0b2", "0o8", "0xg", "-0", "+0", "-0x8000000000000000", "0x7fffffffffffffff", "1_0_0", "0b_1"}
@@ -515,6 +522,7 @@ func runC05(r *Run) {
 			}
 		}
 	}
+	collidingJoins(r, "colliding-joins")
 	// absent leaves reached through quantifier-bound aliases (chains of aliases with different names)
 	{
 		d := map[string]interface{}{"groups": []interface{}{
@@ -736,6 +744,8 @@ func runC06(r *Run) {
 		}
 	}
 	c06EmptyPointer(r)
+	collidingJoins(r, "colliding-joins")
+	c13InPlaceAndNested(r, 0, 0) // calls that nest, seen from the quantifier's side
 	// index / key variables are the position / key itself
 	for _, t := range []struct{ e, want string }{
 		{"all l as i, v { i != 7 and v != 7 }", "T"}, {"any l as i, _ { i == 2 }", "T"}, {"any l as i, _ { i == 3 }", "F"}, {"all m as k, v { k == a or k == b }", "T"}, {"any m as k { k == b }", "T"}, {"any m as k { k == zz }", "F"},
@@ -952,7 +962,8 @@ func runC07(r *Run) {
 		var parts []string
 		if rng.Pct(50) {
 			// documents with awkward keys
-			keys := []string{"a", "b c", "x/y", "t~u", "0", "12", "K", "k", " k", "é", "a.b", "-", "_u", "a~1b", "a~0b", "~", "~1", "~0~1", "a~01", "/", "a/~b"}
+			keys := []string{"a", "b c", "x/y", "t~u", "0", "12", "K", "k", " k", "é", "a.b", "-", "_u", "a~1b", "a~0b", "~", "~1", "~0~1", "a~01", "/", "a/~b",
+				"liquid", "costarring", "declinate", "macallums", "altarage", "zinke", "plumless", "buckeroo", "Aa", "BB", "007", "010", "m²", "Ⅷ", "CO₂", "½", "二〇二四", "K", "İ", "struct field", "not found", "key"}
 			leaf := pick(rng, []interface{}{1, "a", []interface{}{1, "a"}, map[string]interface{}{"z": 1}, nil, ""})
 			k1, k2, k3 := pick(rng, keys), pick(rng, keys), pick(rng, keys)
 			d = map[string]interface{}{"m": map[string]interface{}{k1: map[string]interface{}{k2: leaf, k3: []interface{}{leaf, 1}}}, "l": []interface{}{1}}
@@ -1285,6 +1296,7 @@ func runC08(r *Run) {
 	}
 	c08TagNameAndMethods(r)
 	c08Shapes(r)
+	c08TagCaseAndComparable(r)
 	// a hidden field's content is never the value a selector resolves to; a renamed field only under its tag
 	d := S5{Sec: "secret", priv: "secret", Ren: "r", SecS: S5b{Name: "secret"}}
 	for _, t := range []struct{ e, tag, want string }{
@@ -1364,6 +1376,8 @@ func runC14(r *Run) {
 		reps, n = 512, 6000
 	}
 	c14OddMaps(r, reps)
+	sameTypeDifferentShape(r, "order-dependent-evaluate")
+	c14RepeatedCreation(r, reps)
 	bodies := []string{"any m as _, v { v.x == 1 }", "all m as _, v { v.x == 1 }", "any m as k, v { v.x == 1 and k != zz }", "all m as k, v { v.x != 1 or k == a }", "any m as k { k == b }",
 		"any m as _, v { v == 5 }", "all m as _, v { v is not empty }", "any m as _, v { any v as _, w { w == 1 } }", "not any m as _, v { v.x == 2 }", "any m as _, v { v.x == 1 } or any m as _, v { v.x == 2 }",
 		"any o.m as _, v { v.x == 1 }", "all m as k, _ { k matches `^[a-d]$` }",
